@@ -174,6 +174,8 @@ class SubCheck:
 
 
 def run_sub(chk, module, prefix, only):
+    if isinstance(chk, SubCheck):
+        return          # imports do not nest (two properties may import clauses of each other)
     import importlib
     mod = importlib.import_module('tsa.rules.%s' % module)
     mod.run(SubCheck(chk, prefix, only), chk.tier)
